@@ -9,7 +9,7 @@ import glob, json, os, subprocess, sys, time
 
 HERE = os.path.dirname(os.path.dirname(os.path.abspath(__file__)))
 # which checks are expected to notice a change seeded for property X (own check first)
-ALSO = {"C06": ["C02"], "C02": ["C05"], "C15": ["C03"], "C19": ["C06", "C10", "C07"], "C12": ["C11", "C03"], "C04": [], "C08": [], "C01": []}
+ALSO = {"C06": ["C02"], "C05": ["C02"], "C02": ["C05"], "C15": ["C03"], "C19": ["C06", "C10", "C07"], "C12": ["C11", "C03"], "C04": [], "C08": [], "C01": []}
 
 
 def sh(cmd, cwd=None, env=None, timeout=3600):
